@@ -67,6 +67,14 @@ def const_term(py):
 
 def real_of(v):
     """numeric value -> z3 Real term (None if not numeric)."""
+    if isinstance(v, U):
+        terms = [(g, real_of(b)) for g, b in v.alts]
+        if any(t is None for _, t in terms):
+            return None
+        acc = terms[-1][1]
+        for g, t in reversed(terms[:-1]):
+            acc = z3.If(g, t, acc)
+        return acc
     if isinstance(v, C):
         if isinstance(v.v, bool):
             return z3.RealVal(int(v.v))
@@ -84,6 +92,14 @@ def real_of(v):
 
 
 def int_of(v):
+    if isinstance(v, U):
+        terms = [(g, int_of(b)) for g, b in v.alts]
+        if any(t is None for _, t in terms):
+            return None
+        acc = terms[-1][1]
+        for g, t in reversed(terms[:-1]):
+            acc = z3.If(g, t, acc)
+        return acc
     if isinstance(v, C):
         if isinstance(v.v, bool):
             return z3.IntVal(int(v.v))
@@ -148,6 +164,8 @@ def kind(v):
         return "tuple"
     if isinstance(v, R):
         return "ref"
+    if isinstance(v, U):
+        return "union(" + ",".join(sorted(set(kind(b) for _, b in v.alts))) + ")"
     raise OutOfSubset("kind of %r" % (v,))
 
 
